@@ -1529,9 +1529,159 @@ def _n81(fn):
             i += 1
 
 
+def _n83(fn):
+    """N83 nested guards around a leaving statement: `if A: if B: continue` (no else on either, nothing else in the outer body) ->
+    `if A and B: continue` (likewise break / return / raise)"""
+    changed = True
+    while changed:
+        changed = False
+        for holder, fld, blk in list(_blocks(fn)):
+            for st in blk:
+                if isinstance(st, ast.If) and not st.orelse and len(st.body) == 1 and isinstance(st.body[0], ast.If) and not st.body[0].orelse \
+                        and len(st.body[0].body) == 1 and isinstance(st.body[0].body[0], (ast.Continue, ast.Break, ast.Return, ast.Raise)):
+                    inner = st.body[0]
+                    st.test = ast.copy_location(ast.BoolOp(ast.And(), [st.test, inner.test]), st.test)
+                    st.body = inner.body
+                    changed = True
+
+
+def _n84(tree):
+    """N84 membership in a constant collection does not depend on its kind: `x in frozenset((a, b))` / `set([a, b])` / `{a, b}` /
+    `[a, b]` with literal elements -> `x in (a, b)`"""
+    class T(ast.NodeTransformer):
+        def visit_Compare(self, n):
+            self.generic_visit(n)
+            if len(n.ops) == 1 and isinstance(n.ops[0], (ast.In, ast.NotIn)):
+                box = n.comparators[0]
+                while isinstance(box, ast.Call) and isinstance(box.func, ast.Name) and box.func.id in ('frozenset', 'set', 'tuple', 'list') \
+                        and len(box.args) == 1 and not box.keywords:
+                    box = box.args[0]
+                if box is not n.comparators[0] or isinstance(box, (ast.Set, ast.List)):
+                    if isinstance(box, (ast.Tuple, ast.List, ast.Set)) and box.elts and all(isinstance(x, ast.Constant) for x in box.elts):
+                        n.comparators = [ast.copy_location(ast.Tuple(list(box.elts), ast.Load()), box)]
+            return n
+    return T().visit(tree)
+
+
+def _n85(fn, counter):
+    """N85 first match by for/break/else: `for T in XS: if C: v = E; break` + `else: <leave>` (C, E without calls that could have an
+    effect) -> `m = [E for T in XS if C]; if len(m) == 0: <leave>; v = m[0]`"""
+    from .normalize import _PURE_CALLS
+
+    def pure(e):
+        for c in ast.walk(e):
+            if isinstance(c, (ast.Yield, ast.YieldFrom, ast.Await, ast.NamedExpr, ast.Lambda)):
+                return False
+            if isinstance(c, ast.Call) and not (isinstance(c.func, ast.Name) and c.func.id in _PURE_CALLS):
+                return False
+        return True
+    for holder, fld, blk in list(_blocks(fn)):
+        i = 0
+        while i < len(blk):
+            st = blk[i]
+            if isinstance(st, ast.For) and st.orelse and len(st.body) == 1 and isinstance(st.body[0], ast.If) and not st.body[0].orelse \
+                    and len(st.body[0].body) == 2 and isinstance(st.body[0].body[1], ast.Break) and isinstance(st.body[0].body[0], ast.Assign) \
+                    and len(st.body[0].body[0].targets) == 1 and isinstance(st.body[0].body[0].targets[0], ast.Name) \
+                    and isinstance(st.orelse[-1], (ast.Raise, ast.Return)) and pure(st.body[0].test) and pure(st.body[0].body[0].value) \
+                    and pure(st.iter) and not any(isinstance(n, (ast.Break, ast.Continue)) for x in st.orelse for n in ast.walk(x)):
+                a = st.body[0].body[0]
+                v = a.targets[0].id
+                tnames = {n.id for n in ast.walk(st.target) if isinstance(n, ast.Name)}
+                if v in tnames:
+                    i += 1
+                    continue
+                counter[0] += 1
+                m = '_first%d' % counter[0]
+                comp = ast.ListComp(a.value, [ast.comprehension(st.target, st.iter, [st.body[0].test], 0)])
+                s1 = ast.Assign([ast.Name(m, ast.Store())], comp)
+                s2 = ast.If(ast.Compare(ast.Call(ast.Name('len', ast.Load()), [ast.Name(m, ast.Load())], []), [ast.Eq()], [ast.Constant(0)]),
+                            list(st.orelse), [])
+                s3 = ast.Assign([ast.Name(v, ast.Store())], ast.Subscript(ast.Name(m, ast.Load()), ast.Constant(0), ast.Load()))
+                for x in (s1, s2, s3):
+                    ast.copy_location(x, st)
+                    ast.fix_missing_locations(x)
+                blk[i:i + 1] = [s1, s2, s3]
+                i += 3
+                continue
+            i += 1
+
+
+def _n86(fn):
+    """N86 first match taken from a list of matches: `L = [v for v in XS if C]; if not L: <B, leaving>; x = L[0]; REST` (to the end of
+    the block; L used nowhere else; no break/continue of this level in REST) ->
+    `for x in XS: if C[v:=x]: REST; break` + `else: B` (the first match decides, as before; C is asked in the same order - only no
+    longer for the elements after the first match, which is why C must be without effects: a has_attribute / membership test)"""
+    def pure_test(e):
+        for c in ast.walk(e):
+            if isinstance(c, ast.Call) and not (isinstance(c.func, ast.Attribute) and c.func.attr in ('has_attribute', 'is_scalar', 'is_mapping',
+                                                                                                      'is_sequence', 'startswith', 'endswith')
+                                                or isinstance(c.func, ast.Name) and c.func.id in ('isinstance', 'hasattr', 'len', 'issubclass')):
+                return False
+        return True
+
+    def own_jumps(stmts):
+        """break / continue statements in stmts that would bind to a loop outside stmts"""
+        out = []
+
+        def rec(n, depth):
+            for ch in ast.iter_child_nodes(n):
+                if isinstance(ch, (ast.FunctionDef, ast.Lambda, ast.ClassDef)):
+                    continue
+                if isinstance(ch, (ast.For, ast.While)):
+                    for b in ch.body:
+                        rec_stmt(b, depth + 1)
+                    for b in ch.orelse:
+                        rec_stmt(b, depth)
+                    continue
+                rec_stmt(ch, depth) if isinstance(ch, ast.stmt) else rec(ch, depth)
+
+        def rec_stmt(s_, depth):
+            if isinstance(s_, (ast.Break, ast.Continue)) and depth == 0:
+                out.append(s_)
+            rec(s_, depth)
+        for s_ in stmts:
+            rec_stmt(s_, 0)
+        return out
+    for holder, fld, blk in list(_blocks(fn)):
+        for i in range(len(blk) - 2):
+            s1, s2, s3 = blk[i], blk[i + 1], blk[i + 2]
+            if not (isinstance(s1, ast.Assign) and len(s1.targets) == 1 and isinstance(s1.targets[0], ast.Name) and isinstance(s1.value, ast.ListComp)
+                    and len(s1.value.generators) == 1 and isinstance(s1.value.elt, ast.Name) and isinstance(s1.value.generators[0].target, ast.Name)
+                    and s1.value.elt.id == s1.value.generators[0].target.id and len(s1.value.generators[0].ifs) >= 1):
+                continue
+            L, g = s1.targets[0].id, s1.value.generators[0]
+            if not (isinstance(s2, ast.If) and not s2.orelse and isinstance(s2.test, ast.UnaryOp) and isinstance(s2.test.op, ast.Not)
+                    and isinstance(s2.test.operand, ast.Name) and s2.test.operand.id == L and s2.body
+                    and isinstance(s2.body[-1], (ast.Continue, ast.Return, ast.Raise))):
+                continue
+            if not (isinstance(s3, ast.Assign) and len(s3.targets) == 1 and isinstance(s3.targets[0], ast.Name) and isinstance(s3.value, ast.Subscript)
+                    and isinstance(s3.value.value, ast.Name) and s3.value.value.id == L and isinstance(s3.value.slice, ast.Constant)
+                    and s3.value.slice.value == 0):
+                continue
+            rest = blk[i + 3:]
+            inside = {id(n) for x in (s1, s2, s3) for n in ast.walk(x)}
+            if any(isinstance(n, ast.Name) and n.id == L and id(n) not in inside for n in ast.walk(fn)):
+                continue
+            if not all(pure_test(c) for c in g.ifs) or own_jumps(rest) or not rest:
+                continue
+            x = s3.targets[0].id
+            cond = g.ifs[0] if len(g.ifs) == 1 else ast.BoolOp(ast.And(), list(g.ifs))
+            cond = _Subst(lambda n, v=g.target.id: isinstance(n, ast.Name) and n.id == v, lambda n, x=x: ast.Name(x, n.ctx)).visit(copy.deepcopy(cond))
+            brk = ast.copy_location(ast.Break(), s3)
+            inner = ast.If(cond, rest + [brk], [])
+            loop = ast.For(ast.Name(x, ast.Store()), g.iter, [inner], list(s2.body), None)
+            ast.copy_location(inner, s3)
+            ast.copy_location(loop, s1)
+            ast.fix_missing_locations(loop)
+            blk[i:] = [loop]
+            return True
+    return False
+
+
 def pre_normalize(tree: ast.Module) -> ast.Module:
     tree = _n71(tree)
     tree = _n77(tree)
+    tree = _n84(tree)
     tree = _n75(tree)
     tree = _n39(tree)
     tree = _n47(tree)
@@ -1545,6 +1695,9 @@ def pre_normalize(tree: ast.Module) -> ast.Module:
                 _n62(fn, isinstance(holder, ast.ClassDef) and not any(isinstance(d, ast.Name) and d.id == 'staticmethod' for d in fn.decorator_list),
                      counter)
     for fn in [n for n in ast.walk(tree) if isinstance(n, (ast.FunctionDef, ast.AsyncFunctionDef))]:
+        _n83(fn)
+        _n86(fn)
+        _n85(fn, counter)
         _n68(fn)
         _n70(fn, counter)
         _n72(fn)
